@@ -101,3 +101,76 @@ func c10RoundTrip(c *Ctx) {
 		}
 	}
 }
+
+// c10RoundTripMultiType: the same round trip on a model with two policy and two role definitions: every
+// definition's rules come back under their own definition, in their order, through both bundled adapters.
+func c10RoundTripMultiType(c *Ctx) {
+	text := twoTypesModel
+	tmp, err := os.MkdirTemp("", "c10rtm")
+	if err != nil {
+		panic(err)
+	}
+	defer os.RemoveAll(tmp)
+	names := []string{"alice", "bob", "admin", "data1", "data2", "data_group", "read", "write", "x-y", "été"}
+	n := 40
+	if c.Thorough() {
+		n = 1500
+	}
+	for i := 0; i < n; i++ {
+		pick := func() string { return names[c.Rng.Intn(len(names))] }
+		rules := map[string][][]string{}
+		for _, def := range []struct {
+			pt string
+			n  int
+		}{{"p", 3}, {"p2", 2}, {"g", 2}, {"g2", 2}} {
+			for k := c.Rng.Intn(4); k > 0; k-- {
+				r := make([]string, def.n)
+				for j := range r {
+					r[j] = pick()
+				}
+				rules[def.pt] = append(rules[def.pt], r)
+			}
+		}
+		fill := func(e *casbin.Enforcer) {
+			_, _ = e.AddNamedPoliciesEx("p", cloneRules(rules["p"]))
+			_, _ = e.AddNamedPoliciesEx("p2", cloneRules(rules["p2"]))
+			_, _ = e.AddNamedGroupingPoliciesEx("g", cloneRules(rules["g"]))
+			_, _ = e.AddNamedGroupingPoliciesEx("g2", cloneRules(rules["g2"]))
+		}
+		listed := func(e *casbin.Enforcer) string {
+			p, _ := e.GetNamedPolicy("p")
+			p2, _ := e.GetNamedPolicy("p2")
+			g, _ := e.GetNamedGroupingPolicy("g")
+			g2, _ := e.GetNamedGroupingPolicy("g2")
+			return fmt.Sprintf("p=%v p2=%v g=%v g2=%v", p, p2, g, g2)
+		}
+		path := fmt.Sprintf("%s/m%d.csv", tmp, i)
+		_ = os.WriteFile(path, nil, 0o644)
+		e, err := casbin.NewEnforcer(mustModel(text), fileadapter.NewAdapter(path))
+		if err != nil {
+			panic(err)
+		}
+		e.EnableAutoSave(false)
+		fill(e)
+		want := listed(e)
+		if err := e.SavePolicy(); err != nil {
+			c.Direct("SavePolicy of a model with two policy and two role definitions failed", fmt.Sprint(err))
+			continue
+		}
+		fresh, err := casbin.NewEnforcer(mustModel(text), fileadapter.NewAdapter(path))
+		got := "load error"
+		if err == nil {
+			got = listed(fresh)
+		}
+		sa := stringadapter.NewAdapter("")
+		_ = sa.SavePolicy(e.GetModel())
+		e3, _ := casbin.NewEnforcer(mustModel(text))
+		_ = sa.LoadPolicy(e3.GetModel())
+		gotS := listed(e3)
+		c.Evals++
+		c.Count("roundtrip_multi_type", 1)
+		if got != want || gotS != want {
+			c.Direct("SavePolicy then LoadPolicy does not reproduce the rules", fmt.Sprintf("two policy and two role definitions\nsaved:          %s\nfile adapter:   %s\nstring adapter: %s", want, got, gotS))
+		}
+	}
+}
